@@ -57,7 +57,7 @@ def offset_spec(kinds, rt_offset):
         off0 = sx.it.entry_offset
 
         def holds(res):
-            if res is not None:
+            if res is not None or not _entry_list_untouched(sx.it):
                 return False
             base, off = real.fields["base_offset"], real.fields["offset"]
             c1, r1 = denot(base)
@@ -75,6 +75,13 @@ def offset_spec(kinds, rt_offset):
     return spec
 
 
+def _entry_list_untouched(it):
+    """frame: RefSpec.copy() hands the SAME base_offset list to the copy (every cast view .unsigned / .signed / .bitvector of a
+    reference is such a copy) -- simplify must not change that list object, only rebind its own attribute"""
+    obj, before = it.entry_list_obj, it.entry_base
+    return len(obj) == len(before) and all(a is b for a, b in zip(obj, before))
+
+
 def slice_spec(kinds):
     def spec(sx, self):
         real = sx.real_args[0]
@@ -82,7 +89,7 @@ def slice_spec(kinds):
         s0, t0 = sx.it.entry_offset
 
         def holds(res):
-            if res is not None:
+            if res is not None or not _entry_list_untouched(sx.it):
                 return False
             base = real.fields["base_offset"]
             c1, r1 = denot(base)
@@ -110,6 +117,7 @@ for n in range(0, 4):
             c.native = False
 
             def setup(it, ctx, args, env):
+                it.entry_list_obj = args[0].fields["base_offset"]
                 it.entry_base = list(args[0].fields["base_offset"])
                 it.entry_offset = args[0].fields["offset"]
 
@@ -123,8 +131,15 @@ for n in range(0, 4):
         c.native = False
 
         def setup_s(it, ctx, args, env):
+            it.entry_list_obj = args[0].fields["base_offset"]
             it.entry_base = list(args[0].fields["base_offset"])
             it.entry_offset = (args[0].fields["start"], args[0].fields["stop"])
 
         c.setup = setup_s
         scon.cases.append(c)
+
+
+# C17 ("BitField fields read and write exactly their declared bit ranges", nested records deserialised with std.Ref): the offsets
+# of the enclosing slices are folded by these two functions
+for _q in ("Offset.simplify", "Slice.simplify"):
+    contract("cohdl._core._type_qualifier:" + _q, ("C17",))
